@@ -267,7 +267,7 @@ pub fn run(ctx: &Ctx) -> i32 {
             threads: ctx.threads,
             mem_bytes: std::env::var("VERIF_MEM_GB").ok().and_then(|s| s.parse::<u64>().ok()).unwrap_or(3) << 30,
             case_timeout_s: 60,
-            died_signature: "C02/abort".into(),
+            died_signature: "C02/abort".into(), resource_is_violation: false,
         };
         corpus::warm(profile, n);
         let r = util::par_forked(&cfg, nshards, |sh| sweep(profile, n, sh, &styles));
